@@ -382,6 +382,18 @@ impl ValueChange {
     }
 }
 
+#[cfg(nomt_verif)]
+impl Tree {
+    /// Verification hook: `(bump, free-list head)` of the `ln` and of the `bbn` allocator.
+    pub fn verif_allocator_params(&self) -> ((u32, Option<u32>), (u32, Option<u32>)) {
+        let shared = self.shared.read();
+        (
+            shared.leaf_store.verif_bump_and_head(),
+            shared.bbn_store.verif_bump_and_head(),
+        )
+    }
+}
+
 /// Data generated during update
 pub struct SyncData {
     pub ln_freelist_pn: u32,
